@@ -21,6 +21,11 @@ CHECKS.update({
          'Every word of <= 2 syllable units over a 1 515-unit set (conjuncts via hasanta / ro-fola / zo-fola, all sign kinds incl. two-part signs, chandrabindu, reph) and, in the thorough tier, <= 3 units over a reduced set, typed in typewriter order with the option on and in Unicode order with it off under all 16 settings of the other helpers; texts must be equal. Every waiting-sign point is checked for not-shown / ongoing / discarded-by-one-backspace.',
          'Differential oracle (no expected value): a bug common to both orders is invisible here (C12 covers the Unicode-order side). Bounded by the unit set and word length.', '4/C14'),
 })
+CHECKS.update({
+ 'C01': ('model_checking', 'explicit-state / history BFS over the real context under catch_unwind',
+         'Bounded exhaustive exploration of real API call sequences with the oracle "returns normally, result fully readable, < 2 s": fixed-method state graph over a 40-event class alphabet under all 2^10 option combinations (length 2/3) and the 64 composition-option combinations (length 3/4); fixed history graph with suggestions on (34 configurations); all 111 published keys x 4 modifiers x 3 selection bytes from 13/12 representative states under 16 phonetic and 544 fixed configurations; phonetic history graph with commit of every index, restart, update-engine and the text-less keypad keys to depth 4/5 (18 configurations) and again from 386 learned states; long-word families to 100/300 characters.',
+         'Bounded by alphabets (one key per class), depths and the representative states of part (b); a panic caught at the Rust API is taken as an abort at the C ABI; aborts that bypass unwinding (stack overflow, OOM) end the run as a machinery error.', '4/C01'),
+})
 NOT_YET = {}
 props = [json.loads(l) for l in open(os.path.join(V,'properties.jsonl'))]
 checks = []
